@@ -59,7 +59,10 @@ def numeval(t, env, extra_uf=None, cache=None):
                     raise CannotEvaluate(f"no value for {name}")
                 return env[name]
             if name in uf:
-                return uf[name](*[ev(c) for c in ch])
+                try:
+                    return uf[name](*[ev(c) for c in ch])
+                except OverflowError:
+                    return float("inf")
             raise CannotEvaluate(f"uninterpreted function {name}")
         if kind == z3.Z3_OP_ADD:
             return math.fsum(ev(c) for c in ch)
